@@ -26,13 +26,20 @@ HEADER = "".join("Die Zahl %s ist %d.\n" % (v, i + 1) for i, v in enumerate(VARS
 def rand_tree(rng, depth):
     if depth == 0 or rng.chance(1, 4):
         return ("atom", rng.below(9))
+    if rng.chance(1, 6):
+        return ("ite", rand_tree(rng, depth - 1), rand_tree(rng, depth - 1), rand_tree(rng, depth - 1))
     if rng.chance(1, 5):
         return ("un", rng.below(len(UOPS)), rand_tree(rng, depth - 1))
     return ("bin", rng.below(len(OPS)), rand_tree(rng, depth - 1), rand_tree(rng, depth - 1))
 
 
 def pp(e, k, rng=None):
-    """DDP.LadderParse.pp; with rng: redundant parentheses now and then"""
+    """DDP.LadderParse.pp (k = chain rung asked for) / ppI (k = -1: a whole expression); with rng: redundant parentheses now and then"""
+    if e[0] == "ite":
+        body, need = pp(e[1], 0, rng) + ["f"] + pp(e[2], -1, rng) + ["s"] + pp(e[3], -1, rng), k >= 0
+        if need or (rng is not None and rng.chance(1, 7)):
+            return ["("] + body + [")"]
+        return body
     if e[0] == "atom":
         body, need = ["a%d" % e[1]], False
     elif e[0] == "un":
@@ -46,6 +53,8 @@ def pp(e, k, rng=None):
 
 
 def show(e):
+    if e[0] == "ite":
+        return "(ite %s %s %s)" % (show(e[1]), show(e[2]), show(e[3]))
     if e[0] == "atom":
         return "(atom %d)" % e[1]
     if e[0] == "un":
@@ -68,6 +77,9 @@ def raw_sequence(rng):
             while rng.chance(1, 6):
                 toks.append("u%d" % rng.below(len(UOPS)))
         toks.append("a%d" % rng.below(9))
+        if rng.chance(1, 9):      # a conditional expression starts here; its two further operands are atoms or groups of their own
+            toks += ["f", "a%d" % rng.below(9), "s"] if rng.chance(2, 3) else ["f", "(", "a%d" % rng.below(9), "o%d" % rng.below(len(OPS)), "a%d" % rng.below(9), ")", "s"]
+            toks.append("a%d" % rng.below(9))
         while open_ and rng.chance(1, 3):
             toks.append(")")
             open_ -= 1
@@ -76,7 +88,7 @@ def raw_sequence(rng):
 
 
 def soup(rng):
-    alphabet = ["a1", "a5", "o5", "o8", "o1", "u0", "u2", "(", ")"]
+    alphabet = ["a1", "a5", "o5", "o8", "o1", "u0", "u2", "(", ")", "f", "s"]
     return [rng.choice(alphabet) for _ in range(1 + rng.below(6))]
 
 
@@ -85,6 +97,10 @@ def spell(toks):
     for t in toks:
         if t in "()":
             out.append(t)
+        elif t == "f":
+            out.append(", falls")
+        elif t == "s":
+            out.append(", ansonsten")
         elif t[0] == "a":
             n = int(t[1:])
             out.append(VARS[n] if n < len(VARS) else str(n))
@@ -92,7 +108,7 @@ def spell(toks):
             out.append(OPS[int(t[1:])][0])
         else:
             out.append(UOPS[int(t[1:])][0])
-    return " ".join(out).replace("( ", "(").replace(" )", ")")
+    return " ".join(out).replace("( ", "(").replace(" )", ")").replace(" ,", ",")
 
 
 def real_to_model(s):
@@ -103,7 +119,7 @@ def real_to_model(s):
         s = s.replace("(un %s " % name, "(un %d " % i)
     for i, v in enumerate(VARS):
         s = s.replace("(var %s)" % v, "(atom %d)" % i)
-    return s.replace("(int ", "(atom ")
+    return s.replace("(int ", "(atom ").replace("(ter falls ", "(ite ")
 
 
 def run(res, harness, model, ddp, seed, n_trees, n_raw, n_soup):
@@ -111,9 +127,9 @@ def run(res, harness, model, ddp, seed, n_trees, n_raw, n_soup):
     cases = []      # (stream, tokens, expected tree or None)
     for i in range(n_trees):
         e = rand_tree(rng, 1 + rng.below(5))
-        cases.append(("minimal", pp(e, 0), show(e)))
+        cases.append(("minimal", pp(e, -1), show(e)))
         if i % 3 == 0:
-            cases.append(("redundant", pp(e, 0, rng), show(e)))
+            cases.append(("redundant", pp(e, -1, rng), show(e)))
     for _ in range(n_raw):
         cases.append(("raw", raw_sequence(rng), None))
     for _ in range(n_soup):
